@@ -16,7 +16,8 @@
 (* are outside the table and outside the bijection clause.                 *)
 (*                                                                         *)
 (* The environment is an abstract writer: it picks a context (address      *)
-(* size, offset size = DWARF format, byte order), then appends operations  *)
+(* size, offset size = DWARF format, byte order, version the parser was    *)
+(* told: 2..5, or 0 = none stated), then appends operations                *)
 (* to an abstract expression or wraps the whole expression into an         *)
 (* entry-value operation, and finally hands Enc(expr) to the reader.       *)
 (* The reader is the decoder the standard implies, one action per step:    *)
@@ -40,16 +41,42 @@
 (*                every reader step decreases a variant);                  *)
 (*   NamesBijective, CodesUnique, MarkersApart (ASSUME, constant level).   *)
 (*                                                                         *)
+(*   SettledExact (ASSUME): the operations left out of a context are       *)
+(*                exactly those on which the two published operand-size    *)
+(*                conventions disagree there (see below);                  *)
+(*   VersionFree  the encoding of an expression does not depend on the     *)
+(*                version of the context (in any context where all its     *)
+(*                operations are settled); WidthVersionFree (ASSUME) is    *)
+(*                its constant-level core (the big thorough grid checks    *)
+(*                only that one: VersionFree re-encodes five times).       *)
+(*                                                                         *)
+(* The version dimension.  Operand sizes are a function of address size    *)
+(* and DWARF format only (the property; DWARF 3 2.5.1.5/7.7.1, DWARF 4     *)
+(* 2.5.1.5, DWARF 5 2.5.1.5, 2.6.1.1.4: the DIE reference of DW_OP_call_ref*)
+(* / DW_OP_implicit_pointer is 4 bytes in the 32-bit and 8 bytes in the    *)
+(* 64-bit format).  That holds for a parser that was given version 3, 4,   *)
+(* 5 or *no* version (ver = 0: there is no unit that could say "2"; this   *)
+(* is how call-frame and location-list clients get their parser, and the   *)
+(* constructor default must not change operand sizes).  DWARF 2 itself has *)
+(* neither DW_OP_call_ref (added in 3) nor DW_OP_implicit_pointer (5) nor  *)
+(* the GNU form of the latter; producers that emit them in version 2 units *)
+(* (GCC: DWARF_REF_SIZE) size the reference like DW_FORM_ref_addr of       *)
+(* DWARF 2, i.e. by the address size, whereas the DWARF 3+ text knows only *)
+(* the format.  Where the two readings differ (ver = 2 and address size #  *)
+(* offset size) the three operations are NOT SETTLED: the writer does not  *)
+(* produce them and the reader (trace direction) treats them as outside    *)
+(* the table.  Everywhere else they are asserted.                          *)
+(*                                                                         *)
 (* Not asserted (the property/standard does not fix it): the Python        *)
-(* representation of a block (list of ints or bytes); DW_OP_GNU_implicit_  *)
-(* pointer in DWARF *2* units (address-sized first operand there): the     *)
-(* property sizes operands by address size and format only, contexts are   *)
-(* DWARF >= 3; vendor opcodes outside the table.                           *)
+(* representation of a block (list of ints or bytes); the unsettled        *)
+(* operations above; vendor opcodes outside the table.                     *)
 (***************************************************************************)
 EXTENDS Bytes, TLC, Json, CSV, IOUtils
 
 CONSTANTS Mode,        \* "grid": exhaustive product / "walk": long random expressions (simulation)
-          Ctxs,        \* contexts [asz, osz, le, full]
+          Ctxs,        \* contexts [asz, osz, le, ver, lvl]: ver 2..5 or 0 (none stated); lvl 2 = every operand class of
+                       \* every operation + sequences, 1 = classes of context-sensitive operations + sequences,
+                       \* 0 = representatives, no flat sequences (single operations and their entry-value wrappings)
           LebLens,     \* lengths (in groups) of LEB128 operands
           GroupCls,    \* classes of the first and last 7-bit group
           FillCls,     \* classes of the groups in between
@@ -181,11 +208,30 @@ ASSUME CodesUnique
 ASSUME NamesBijective
 ASSUME MarkersApart
 
+\* ---- which operations have settled operand sizes in a context (header: "The version dimension")
+Versions == {0, 2, 3, 4, 5}
+RefCodes == {c \in Codes : \E i \in 1..Len(KindsOf(c)) : KindsOf(c)[i] = "off"}     \* call_ref, (GNU_)implicit_pointer
+RefWidthStd(c) == c.osz                                         \* DWARF 3-5: by format
+RefWidthProducer(c) == IF c.ver = 2 THEN c.asz ELSE c.osz       \* GCC DWARF_REF_SIZE: like DW_FORM_ref_addr
+Settled(code, c) == ~(code \in RefCodes /\ c.ver = 2 /\ c.asz # c.osz)
+CodesIn(c) == {code \in Codes : Settled(code, c)}
+SettledExact == \A a \in {4, 8} : \A o \in {4, 8} : \A v \in Versions :
+                  LET c == [asz |-> a, osz |-> o, ver |-> v] IN
+                  /\ \A code \in RefCodes : Settled(code, c) <=> RefWidthStd(c) = RefWidthProducer(c)
+                  /\ \A code \in Codes \ RefCodes : Settled(code, c)
+ASSUME SettledExact
+ASSUME RefCodes = {154, 160, 242}
+
 IsFix(k) == k \in {"u1", "s1", "u2", "s2", "u4", "s4", "u8", "s8", "addr", "off"}
 IsLeb(k) == k \in {"uleb", "sleb"}
 SignedK(k) == k \in {"s1", "s2", "s4", "s8", "sleb"}
 Width(k, c) == CASE k \in {"u1", "s1"} -> 1 [] k \in {"u2", "s2"} -> 2 [] k \in {"u4", "s4"} -> 4
                  [] k \in {"u8", "s8"} -> 8 [] k = "addr" -> c.asz [] k = "off" -> c.osz
+\* no operand width depends on the version (constant-level core of VersionFree below)
+WidthVersionFree == \A k \in {"u1", "s1", "u2", "s2", "u4", "s4", "u8", "s8", "addr", "off"} :
+                      \A a \in {4, 8} : \A o \in {4, 8} : \A v \in Versions :
+                        Width(k, [asz |-> a, osz |-> o, ver |-> v]) = Width(k, [asz |-> a, osz |-> o, ver |-> 0])
+ASSUME WidthVersionFree
 
 (* ======================================================================= *)
 (* (B) Abstract expressions and their encoding                             *)
@@ -286,23 +332,25 @@ RECURSIVE Tiny(_, _)
 Tiny(e, c) == \A i \in 1..Len(e) : IF e[i].code \in NestCodes THEN Tiny(e[i].args[1].e, c)
                                    ELSE e[i].code \in TinyCodes /\ IsSeqOp(e[i], c)
 
+NestBudget == IF ctx.lvl = 0 THEN Min({NestSteps, 3}) ELSE NestSteps      \* level 0: shallow nesting only
 Stage == IF Mode = "walk" THEN (IF Steps(expr) < MaxLen THEN "walk" ELSE "stop")
          ELSE IF Len(expr) >= MaxLen THEN "stop"
          ELSE IF expr = <<>> THEN "first"
-         ELSE IF Depth(expr) = 0 THEN (IF AllSeq(expr, ctx) THEN "seq" ELSE "stop")
-         ELSE IF Tiny(expr, ctx) /\ Steps(expr) < NestSteps THEN "tiny"
+         ELSE IF Depth(expr) = 0 THEN (IF AllSeq(expr, ctx) /\ ctx.lvl > 0 THEN "seq" ELSE "stop")
+         ELSE IF Tiny(expr, ctx) /\ Steps(expr) < NestBudget THEN "tiny"
          ELSE IF Depth(expr) = 1 /\ Len(expr) = 1 THEN "post"
          ELSE "stop"
-AppendCodes(st) == CASE st = "walk" -> SeqCodes \cup TinyCodes [] st = "first" -> FlatCodes [] st = "seq" -> SeqCodes \cup TinyCodes
-                     [] st = "tiny" -> TinyCodes [] st = "post" -> {PostCode} [] OTHER -> {}
+AppendAny(st) == CASE st = "walk" -> SeqCodes \cup TinyCodes [] st = "first" -> FlatCodes [] st = "seq" -> SeqCodes \cup TinyCodes
+                   [] st = "tiny" -> TinyCodes [] st = "post" -> {PostCode} [] OTHER -> {}
+AppendCodes(st) == AppendAny(st) \cap CodesIn(ctx)
 AppendArgs(st, code) == CASE st = "walk" -> Tuples(KindsOf(code), ctx, FALSE)
-                          [] st = "first" -> Tuples(KindsOf(code), ctx, ctx.full \/ Sens(code))
+                          [] st = "first" -> Tuples(KindsOf(code), ctx, ctx.lvl = 2 \/ (ctx.lvl = 1 /\ Sens(code)))
                           [] OTHER -> {SeqArgs(code, ctx)}
 \* walk: wrapping and handing over are offered only now and then (the simulator picks among the enabled
 \* actions uniformly, not among the successors), so that expressions grow long and nest at several places
 CanWrap == IF Mode = "walk" THEN Depth(expr) < MaxDepth /\ Steps(expr) < MaxLen /\ (Steps(expr) % 7) = 3
            ELSE \/ Depth(expr) = 0 /\ MaxDepth > 0 /\ Len(expr) <= WrapLen /\ AllSeq(expr, ctx)
-                \/ Depth(expr) >= 1 /\ Depth(expr) < MaxDepth /\ Tiny(expr, ctx) /\ Steps(expr) < NestSteps
+                \/ Depth(expr) >= 1 /\ Depth(expr) < MaxDepth /\ Tiny(expr, ctx) /\ Steps(expr) < NestBudget
 
 (* ======================================================================= *)
 (* (D) The reader machine                                                  *)
@@ -343,7 +391,7 @@ ReadArg(k, bs, c) ==
                           IF ~a.ok THEN Bad ELSE [ok |-> TRUE, used |-> 1 + a.used, val |-> [wk |-> bs[1], i |-> a.val]]
     [] OTHER -> Bad
 
-CanReadOpcode(r) == LET f == Top(r) IN ~Pending(f) /\ r.pos < f.end /\ r.bytes[r.pos + 1] \in Codes
+CanReadOpcode(r, c) == LET f == Top(r) IN ~Pending(f) /\ r.pos < f.end /\ r.bytes[r.pos + 1] \in Codes /\ Settled(r.bytes[r.pos + 1], c)
 DoReadOpcode(r) ==
   LET f == Top(r)   code == r.bytes[r.pos + 1] IN
   [SetTop(r, Settle([f EXCEPT !.cur = [code |-> code, args |-> <<>>, off |-> r.pos - f.base]])) EXCEPT !.pos = r.pos + 1]
@@ -367,7 +415,7 @@ DoAscend(r) ==
 Finished(r) == Len(r.stack) = 1 /\ ~Pending(Top(r)) /\ r.pos = Top(r).end
 
 \* run to completion (the trace specification decodes recorded byte strings with this)
-RStep(r, c) == CASE CanReadOpcode(r) -> DoReadOpcode(r) [] CanReadOperand(r, c) -> DoReadOperand(r, c)
+RStep(r, c) == CASE CanReadOpcode(r, c) -> DoReadOpcode(r) [] CanReadOperand(r, c) -> DoReadOperand(r, c)
                  [] CanDescend(r) -> DoDescend(r) [] CanAscend(r) -> DoAscend(r) [] OTHER -> r
 RECURSIVE RunR(_, _)
 RunR(r, c) == IF Finished(r) THEN r ELSE LET n == RStep(r, c) IN IF n = r THEN r ELSE RunR(n, c)
@@ -393,7 +441,7 @@ Close == /\ phase = "write" /\ CanClose
          /\ phase' = "read" /\ rd' = RInit(EncExpr(expr, ctx))
          /\ UNCHANGED <<ctx, expr>>
 
-ReadOpcode == phase = "read" /\ CanReadOpcode(rd) /\ rd' = DoReadOpcode(rd) /\ UNCHANGED <<ctx, expr, phase>>
+ReadOpcode == phase = "read" /\ CanReadOpcode(rd, ctx) /\ rd' = DoReadOpcode(rd) /\ UNCHANGED <<ctx, expr, phase>>
 ReadOperand == phase = "read" /\ CanReadOperand(rd, ctx) /\ rd' = DoReadOperand(rd, ctx) /\ UNCHANGED <<ctx, expr, phase>>
 Descend == phase = "read" /\ CanDescend(rd) /\ rd' = DoDescend(rd) /\ UNCHANGED <<ctx, expr, phase>>
 Ascend == phase = "read" /\ CanAscend(rd) /\ rd' = DoAscend(rd) /\ UNCHANGED <<ctx, expr, phase>>
@@ -421,12 +469,20 @@ FramesNest == phase # "write" =>
                                                            /\ rd.stack[i].end <= rd.stack[i - 1].end
                                                            /\ Pending(rd.stack[i - 1])
                 /\ Top(rd).base <= rd.pos /\ rd.pos <= Top(rd).end
-Enabled == <<CanReadOpcode(rd), CanReadOperand(rd, ctx), CanDescend(rd), CanAscend(rd), Finished(rd)>>
+Enabled == <<CanReadOpcode(rd, ctx), CanReadOperand(rd, ctx), CanDescend(rd), CanAscend(rd), Finished(rd)>>
 NeverStuck == phase = "read" => \E i \in 1..5 : Enabled[i]
 Deterministic == phase = "read" => LET en == Enabled IN Cardinality({i \in 1..5 : en[i]}) <= 1
 \* every reader step consumes input or leaves a frame
 Variant(r) == 2 * (Len(r.bytes) - r.pos) + Len(r.stack)
 Terminates == [][(phase = "read" /\ phase' = "read") => Variant(rd') < Variant(rd)]_vars
+\* the bytes of an expression do not depend on the version, wherever all its operations are settled
+RECURSIVE AllSettled(_, _)
+AllSettled(e, c) == \A i \in 1..Len(e) : /\ Settled(e[i].code, c)
+                                          /\ e[i].code \in NestCodes => AllSettled(e[i].args[1].e, c)
+VersionFree == phase = "done" =>
+                 /\ AllSettled(expr, ctx)
+                 /\ \A v \in Versions : LET c == [ctx EXCEPT !.ver = v] IN
+                                         AllSettled(expr, c) => EncExpr(expr, c) = rd.bytes /\ Annot(expr, c) = Result
 
 (* ======================================================================= *)
 (* (G) Emission: the bytes and what a correct parser returns               *)
@@ -446,16 +502,30 @@ NameTable == [names |-> {<<c, NameOf(c)>> : c \in Codes}, markers |-> {Markers[i
 Emit ==
   /\ (phase = "write" /\ expr = <<>>) => CSVWrite("%1$s", <<ToJson([t |-> "table", tab |-> NameTable])>>, IOEnv.OUT)
   /\ phase = "done" =>
-       CSVWrite("%1$s", <<ToJson([t |-> Tag, c |-> <<ctx.asz, ctx.osz, IF ctx.le THEN 1 ELSE 0>>,
+       CSVWrite("%1$s", <<ToJson([t |-> Tag, c |-> <<ctx.asz, ctx.osz, IF ctx.le THEN 1 ELSE 0, ctx.ver>>,
                                   b |-> rd.bytes, x |-> Present(Annot(expr, ctx), ctx)])>>, IOEnv.OUT)
 
 (* ======================================================================= *)
 (* Configurations (cfg files select these)                                 *)
 (* ======================================================================= *)
-CtxOf(full) == {[asz |-> a, osz |-> o, le |-> l, full |-> full \/ (a = 4 /\ o = 4 /\ l) \/ (a = 8 /\ o = 8 /\ ~l)]
-                  : a \in {4, 8}, o \in {4, 8}, l \in BOOLEAN}
-CtxQuick == CtxOf(FALSE)
-CtxAll == CtxOf(TRUE)
+\* every (address size, offset size, byte order) has one primary version that gets the big sweep (level hi, or 2 in
+\* the two corner contexts); the other four versions get level lo.  The primaries are spread so that "none stated"
+\* and every unit version is primary somewhere, 2 only where address size = offset size.
+Primary(a, o, l) == CASE a = 4 /\ o = 4 -> (IF l THEN 5 ELSE 3)
+                      [] a = 8 /\ o = 8 -> (IF l THEN 4 ELSE 2)
+                      [] a = 8 /\ o = 4 -> (IF l THEN 0 ELSE 4)
+                      [] a = 4 /\ o = 8 -> (IF l THEN 3 ELSE 0)
+CtxOf(hi, lo) == {[asz |-> a, osz |-> o, le |-> l, ver |-> v,
+                   lvl |-> IF v # Primary(a, o, l) THEN lo
+                           ELSE IF (a = 4 /\ o = 4 /\ l) \/ (a = 8 /\ o = 8 /\ ~l) THEN 2 ELSE hi]
+                    : a \in {4, 8}, o \in {4, 8}, l \in BOOLEAN, v \in Versions}
+CtxQuick == CtxOf(1, 0)
+CtxAll == CtxOf(2, 0)                                           \* simulation (levels play no part in walk mode)
+CtxThorough == {c \in CtxOf(2, 0) : c.lvl = 2}                  \* thorough grid: the 8 primaries in full ...
+CtxVersions == {c \in CtxOf(2, 1) : c.lvl = 1}                  \* ... and (Expr_versions.cfg) the other 32 at level 1
+ASSUME CtxThorough \cap CtxVersions = {} /\ Cardinality(CtxThorough) = 8 /\ Cardinality(CtxVersions) = 32
+ASSUME {[asz |-> c.asz, osz |-> c.osz, le |-> c.le, ver |-> c.ver] : c \in CtxThorough \cup CtxVersions}
+       = {[asz |-> c.asz, osz |-> c.osz, le |-> c.le, ver |-> c.ver] : c \in CtxAll}
 Bytes5 == {0, 1, 127, 128, 255}
 Bytes7 == {0, 1, 85, 127, 128, 254, 255}
 Bytes256 == 0..255
